@@ -194,6 +194,16 @@ struct Options {
     std::map<std::string, std::string> extra;
 };
 
+// Calls that omit an optional argument must behave as the call that passes the documented default: a harness wraps the
+// explicit call in DF(explicit, defaulted) where the explicit argument IS the default; a disagreement replaces the
+// observation of the case by "!default-argument-mismatch" (which no model produces).
+inline bool &default_mismatch() { static bool f = false; return f; }
+template <class T, class U> const T &same_as_default(const T &with, const U &dflt) { if (!(with == dflt)) default_mismatch() = true; return with; }
+
+// thrown by Emitter::emit once the last wanted case has been written: the generator stops there (it may call the library
+// itself to build later cases, and must not do so again after it has been seen to die between two cases)
+struct StopGeneration {};
+
 class Emitter {
 public:
     typedef std::function<std::string(const Args &)> ExecFn;
@@ -203,15 +213,18 @@ public:
     void stop_after(long n) { stop_after_ = n; }
     void emit(const std::string &input) {
         ++index_;
-        if (index_ < start_) return;
-        if (stop_after_ >= 0 && index_ > stop_after_) return;
+        if (stop_after_ >= 0 && index_ > stop_after_) { flush(); throw StopGeneration(); }
+        if (index_ < start_) { if (stop_after_ >= 0 && index_ == stop_after_) { flush(); throw StopGeneration(); } return; }
         auto it = skip_.find(index_);
-        if (it != skip_.end()) { out(input, it->second); return; }
+        if (it != skip_.end()) { out(input, it->second); if (stop_after_ >= 0 && index_ == stop_after_) { flush(); throw StopGeneration(); } return; }
         sh_->current = index_;
         std::string obs;
+        default_mismatch() = false;
         try { obs = exec_(parse_line(input)); }
         catch (const std::bad_alloc &) { obs = "throw bad_alloc(harness)"; }
+        if (default_mismatch() && obs.compare(0, 1, "\x01") != 0) obs = "!default-argument-mismatch";
         out(input, obs);
+        if (stop_after_ >= 0 && index_ == stop_after_) { flush(); throw StopGeneration(); }
     }
     void finish() { flush(); }
     long index() const { return index_; }
@@ -327,7 +340,7 @@ inline int run_main(int argc, char **argv, GenFn gen, Emitter::ExecFn exec) {
     memset((void *)sh, 0, sizeof *sh);
     char errpath[64]; snprintf(errpath, sizeof errpath, "/tmp/vh_err_%d.txt", (int)getpid());
     std::map<long, std::string> skip;
-    long start = 1; int restarts = 0; long total_faults = 0; long stop_after = -1;
+    long start = 1; int restarts = 0; long total_faults = 0; long stop_after = -1; std::string gen_crash;
     for (;;) {
         sh->current = 0; sh->done = 0; sh->flushing = 0;
         fflush(stdout);
@@ -337,7 +350,7 @@ inline int run_main(int argc, char **argv, GenFn gen, Emitter::ExecFn exec) {
             if (fd >= 0) { dup2(fd, 2); close(fd); }
             Emitter em(sh, start, skip, exec);
             em.stop_after(stop_after);
-            if (!opt.replay.empty()) gen_from_file(em, opt.replay); else gen(em, opt);
+            try { if (!opt.replay.empty()) gen_from_file(em, opt.replay); else gen(em, opt); } catch (const StopGeneration &) { }
             em.finish();
             sh->alloc_faults_fired = alloc_ctl().fired;
             sh->done = 1;
@@ -358,9 +371,14 @@ inline int run_main(int argc, char **argv, GenFn gen, Emitter::ExecFn exec) {
         }
         if (!hung && sh->done) { total_faults += sh->alloc_faults_fired; break; }
         long bad = sh->current;
-        if (bad <= 0) {
-            fprintf(stderr, "harness: worker died outside a case (restarts=%d); status=%d\n", restarts, status);
-            unlink(errpath); return 2;
+        if (bad <= 0 || skip.count(bad)) {
+            // the worker died between two cases: in the generator, which calls the library itself to build some inputs
+            // (e.g. decoding what the encoder produced).  That is a crash of the library on a generator-made input; the
+            // cases up to `bad` are flushed by one last worker that stops generating there, and check.py reports it.
+            gen_crash = (hung ? std::string("hang") : classify_stderr(errpath, status)) + "@after_case=" + std::to_string(bad);
+            if (bad <= 0 || stop_after == bad) break;       // nothing (more) to flush
+            stop_after = bad; start = sh->flushed + 1;
+            continue;
         }
         skip[bad] = hung ? std::string("hang") : ("abort " + classify_stderr(errpath, status));
         start = sh->flushed + 1;
@@ -371,7 +389,8 @@ inline int run_main(int argc, char **argv, GenFn gen, Emitter::ExecFn exec) {
         }
     }
     unlink(errpath);
-    fprintf(stderr, "harness: restarts=%d alloc_faults_fired=%ld%s\n", restarts, total_faults, stop_after >= 0 ? " truncated_after_too_many_aborts=1" : "");
+    fprintf(stderr, "harness: restarts=%d alloc_faults_fired=%ld%s%s%s\n", restarts, total_faults, stop_after >= 0 && gen_crash.empty() ? " truncated_after_too_many_aborts=1" : "",
+            gen_crash.empty() ? "" : " generator_crash=", gen_crash.c_str());
     return 0;
 }
 
